@@ -14,6 +14,15 @@ CHECKS = {
              'just-out-of-range values, all vN_M_P strings, in scalar/array/length-1/string conventions, compared bit for bit '
              'with the TLA+ Pack/Unpack; plus seeded random tuples judged by the spec. Joint variation of all fields is sampled, not exhaustive.',
         note='Trusted: TLC, the 20-line bit-set abstraction (int <-> set of bit positions). Values >= 2^31 are not representable in TLC and are not exercised.'),
+    'C20': dict(
+        category='fault_enumeration', design='DESIGN.md section 4 C20',
+        technique='TLA+ state machine (EnvProtocol: save/mutate/steps-with-faults/restore) model-checked by TLC for every fault position and initial '
+                  'environment; every terminal TLC state replayed as a fault injection into the real window_score/template_input; recorded event traces validated by Trace_EnvProtocol',
+        text='Every failure point is enumerated, not sampled: the collaborator call sequence is recorded from fault-free runs of the real entry points, '
+             'TLC explores an exception at every call k x every initial state of the touched variables x exception kind, and each terminal state is replayed '
+             'against the real function with os.environ compared before/after; a negative-control config (restore on success only) must be refuted by TLC.',
+        note='Trusted: the counting proxies in harness/faults.py (collaborators replaced in the module namespace; heavy stages are cheap fakes), '
+             'so faults inside the real heavy stages are represented by the stage call raising. No double faults, no BaseException-only exceptions.'),
 }
 
 PENDING_REASON = 'check not built yet in this round (planned in DESIGN.md section 4); not claimed until its spec, replay and evidence exist'
